@@ -23,6 +23,13 @@ Proof.
   - inversion H; subst. rewrite Z.eqb_refl. simpl. apply IH. reflexivity.
 Qed.
 
+Fixpoint assoc_z {A} (l : list (Z * A)) (k : Z) : option A :=
+  match l with
+  | [] => None
+  | (x, r) :: l' => if k =? x then Some r else assoc_z l' k
+  end.
+Definition is_nonempty_l {A} (l : list A) : bool := match l with [] => false | _ => true end.
+
 (* ceil(n/d) for d > 0 and half-even rounding of n/d, as Python's math.ceil / round on Fractions *)
 Definition ceil_div (n d : Z) : Z := - ((- n) / d).
 Definition round_he (n d : Z) : Z :=
